@@ -12,6 +12,12 @@ answers:
   list: absent | title | masked | err:invalid-bid | PANIC    + " attr=<n|->"
   xread <entry> <bid> <namebid> ...: the entry point gets the number of board <bid> and the name of board <namebid>
   xreadb: the same while Shm.BBusyState is raised
+  users <uid>:<idhex> ...                      the user-id table (uid ↦ id) for the ops below
+  sread|slist <entry|fn> <spellhex> <storedlevel> <over18> <bid>
+        the caller's id as the CLIENT spelled it; ptt.InitCurrentUser (bbs: UUserID.ToRaw first) decides who that is
+  resetbm <bid> <attr> <level> <bmhex>         the board's header is (re)written and cache.ResetBoard(bid) rebuilds its BM cache
+  mread|mlist <entry|fn> <bid> <ulevel> <over18> <uid> <friend>
+        a read/list whose moderator facts come from the BM cache / BM string left by the resetbm history (ptt layer)
   nlist <fn> <bid> <ulevel> <over18> <uid> <bmcache> <friend> <idhex> <bmhex>: a list op whose named-moderator fact is
         is_uBM of the raw bytes (≤13 / ≤39)
 The first command-line argument selects the layer (ptt | bbs).
@@ -156,7 +162,103 @@ def step (bbs : Bool) (st : St) (ws : List String) : St × String :=
        | _, _, _, _, _, _, _, _ => (st, "bad-op"))
   | _ => (st, "bad-op")
 
+/-! ### accounts and moderator lists (ops users / sread / slist / resetbm / mread / mlist) -/
+
+structure Full where
+  core : St := []
+  tbl : Option UserTable := none
+  bms : List (Int × List Nat) := []     -- bid ↦ moderator string of the last resetbm (while still in force)
+  cache : BMCacheSt := []
+
+def splitColon (s : String) : Option (String × String) :=
+  match s.splitOn ":" with
+  | [a, b] => some (a, b)
+  | _ => none
+
+def parseUsers (ws : List String) : Option UserTable :=
+  let rec go : List String → UserTable → Option UserTable
+    | [], acc => some acc.reverse
+    | t :: ts, acc =>
+      match splitColon t with
+      | none => none
+      | some (a, b) =>
+        match parseI32 a, parseHex b with
+        | some uid, some id =>
+          if !uidValid uid || id.length < 2 || id.length > 12 || !isalpha (id.headD 0) || !id.all isalnum then none
+          else if acc.any (fun e => e.1 == uid || caseEq e.2 id) then none
+          else go ts ((uid, id) :: acc)
+        | _, _ => none
+  if ws.isEmpty || ws.length > 50 then none else go ws []
+
+def bmOf (f : Full) (bid : Int) : Option (List Nat) :=
+  match f.bms.find? (fun e => e.1 == bid) with
+  | some e => some e.2
+  | none => none
+
+def dropMod (f : Full) (bid : Int) : Full := { f with bms := f.bms.filter (fun e => e.1 != bid) }
+
+def showLoadedErr : String := "err:user"
+
+def stepFull (bbs : Bool) (f : Full) (ws : List String) : Full × String :=
+  match ws with
+  | ["reset"] => ({}, "ok")
+  | "users" :: rest =>
+      (match parseUsers rest with
+       | some t => ({ f with tbl := some t, bms := [], cache := [] }, "ok")
+       | none => (f, "bad-op"))
+  | [k, entry, spellhex, stored, o18, bid] =>
+      if !((k = "sread" && readNames.contains entry) || (k = "slist" && listNames.contains entry)) then (f, "bad-op") else
+      (match f.tbl, parseHex spellhex, parseU32 stored, parseBool o18, parseI32 bid with
+       | some tbl, some sp, some stored, some o18, some bid =>
+          if sp.length > 20 || !(bid = 2 ∨ bid = 4) || (getBoard f.core bid).isNone then (f, "bad-op") else
+          let f := dropMod f bid
+          let raw := toRawUserID sp
+          if bbs && !userIDValid raw then (f, showLoadedErr ++ " attr=" ++ toString ((getBoard f.core bid).getD default).attr.toNat) else
+          (match initCurrentUser tbl (w stored) o18 raw with
+           | .noUser => (f, showLoadedErr ++ " attr=" ++ toString ((getBoard f.core bid).getD default).attr.toNat)
+           | .unmodelled e => (f, "unmodelled:" ++ noSpace e)
+           | .ok uid _ u =>
+              let (core', o) := doCall bbs f.core (if k = "sread" then "read" else "list") entry bid bid u { bmUid := false, friend := false, namedBM := false }
+              let _ := uid
+              ({ f with core := core' }, o))
+       | _, _, _, _, _ => (f, "bad-op"))
+  | ["resetbm", bid, attr, level, bmhex] =>
+      (match f.tbl, parseI32 bid, parseU32 attr, parseU32 level, parseHex bmhex with
+       | some tbl, some bid, some attr, some level, some bm =>
+          if !(bid = 2 ∨ bid = 4) || bm.length > 39 then (f, "bad-op") else
+          let f := dropMod f bid
+          ({ f with core := setBoard f.core bid { attr := w attr, level := w level },
+                    bms := (bid, bm) :: f.bms,
+                    cache := buildBMCache tbl f.cache bid bm }, "ok")
+       | _, _, _, _, _ => (f, "bad-op"))
+  | [k, entry, bid, ulevel, over18, uid, friend] =>
+      if bbs || !((k = "mread" && readNames.contains entry) || (k = "mlist" && listNames.contains entry)) then (f, "bad-op") else
+      (match f.tbl, parseI32 bid, parseU32 ulevel, parseBool over18, parseI32 uid, parseBool friend with
+       | some tbl, some bid, some ulevel, some over18, some uid, some friend =>
+          (match bmOf f bid, idOf tbl uid, getBoard f.core bid with
+           | some bm, some id, some _ =>
+              -- the friend-file loader skips the guest account: the fact cannot be arranged
+              if friend && caseEq id [103, 117, 101, 115, 116] then (f, "bad-op") else
+              let r : Relation := { bmUid := (bmCacheOf f.cache bid).contains uid, friend := friend, namedBM := isUBM id bm }
+              let (core', o) := doCall bbs f.core (if k = "mread" then "read" else "list") entry bid bid
+                                  { level := w ulevel, over18 := over18, uid := uid } r
+              ({ f with core := core' }, o)
+           | _, _, _ => (f, "bad-op"))
+       | _, _, _, _, _, _ => (f, "bad-op"))
+  | _ =>
+      -- the ops of the decision table; they rewrite the moderator cache and string of the board they address
+      let (core', o) := step bbs f.core ws
+      let f' : Full := { f with core := core' }
+      match ws with
+      | k :: _ :: bid :: _ =>
+          if k = "read" || k = "list" || k = "nlist" || k = "xread" || k = "xreadb" then
+            (match parseI32 bid with
+             | some b => (if o = "bad-op" then f' else dropMod f' b, o)
+             | none => (f', o))
+          else (f', o)
+      | _ => (f', o)
+
 end C07Drv
 
 def main (args : List String) : IO Unit :=
-  runHandler { init := ([] : C07Drv.St), step := C07Drv.step (args.head? = some "bbs") }
+  runHandler { init := ({} : C07Drv.Full), step := C07Drv.stepFull (args.head? = some "bbs") }
